@@ -71,7 +71,7 @@ func TestC18_GetDigitNonDigit(t *testing.T) {
 func TestC06_VerbatimEmptyAndAdjacent(t *testing.T) {
 	set := newSet(nil)
 	for src, want := range map[string]string{
-		"a{% verbatim %}{% endverbatim %}b":                                  "ab",
+		"a{% verbatim %}{% endverbatim %}b":                                            "ab",
 		"{% verbatim %}{{ x }}{% endverbatim %}{% verbatim %}{% y %}{% endverbatim %}": "{{ x }}{% y %}",
 		"{% verbatim %}1{% endverbatim %}{# c #}{% verbatim %}2{% endverbatim %}":      "12",
 	} {
